@@ -130,14 +130,14 @@ PROPS = {
    design_ref="DESIGN.md s4 C02, s3 E1"),
  "C03": dict(engine="E1 wire", src="e1_wire", variants=["asan"], level="exploration",
    seconds={"quick": 50, "thorough": 800},
-   rule="case = a 'writer' application executes a generated script (0..40 writes of 0..200000 bytes incl. byte-at-a-time, flushes, setbuf(k) incl. 0, headers, cookies, content type, io_mode normal|nogzip|asynchronous, full/partial async buffering, optional page cache key shared between requests) "
+   rule="case = a 'writer' application executes a generated script (0..40 writes of 0..200000 bytes incl. byte-at-a-time, flushes, setbuf(k) incl. 0, headers, cookies, content type, io_mode normal|nogzip|raw|asynchronous|asynchronous_raw (raw: own header block written in 1..70-byte pieces), full/partial async buffering, optional page cache key shared between requests) "
         "for http 1.0/1.1 (keep-alive, Content-Length or chunked), scgi, fastcgi; gzip on/off; client channel capacity 1 B..256 KiB and read pace from the plan; every writev may accept any prefix or EAGAIN. "
         "Oracle: an independent de-framer (chunked / Content-Length / until-close / FastCGI STDOUT records + END_REQUEST) yields the body, gunzipped when encoded, which must equal the script's bytes (position-dependent pattern), one header block with every header/cookie set, a cached page byte-identical to a stored one. "
         "non-trivial = run with >= 2 segments or body; distinct = trace hash",
    fault_keys=["short_writes", "eagain", "short_reads", "eintr", "spurious_wakeups"],
-   probe_keys=["writer_responses", "gzip_responses", "chunked_responses", "page_cache_hits", "keepalive_followups"],
+   probe_keys=["writer_responses", "gzip_responses", "chunked_responses", "page_cache_hits", "raw_mode_responses", "client_aborts_mid_response", "keepalive_followups"],
    components=E1C,
-   assumptions=["raw io modes (application writes its own headers) are not generated", "client reset / time-out while the response is written is exercised by C02's configuration, not here"],
+   assumptions=["in raw io modes the application writes a CGI style header block in pieces; headers set through the API are then not expected", "a client that resets the connection in the middle of a response (10% of writer exchanges) switches the content oracle off for that connection: only no crash / no hang / handler at most once / connection released are demanded"],
    category="exploration",
    text="Deterministic simulation of the response path: seeded write scripts against simulated sockets that accept arbitrary prefixes; an independent de-framer reconstructs what the client received and compares it byte for byte with what the application wrote.",
    note="Trusts the harness's de-framers (HTTP chunked/length, CGI, FastCGI records, zlib inflate) and the simulated socket semantics.",
